@@ -30,12 +30,12 @@ func (c12) Describe() CheckInfo {
 			"distinct = distinct (family, flag set, template multiset, layout styles, fault class) tuples",
 		Assumptions: []string{
 			"the API comparison is made only for runs with exactly one patch file and without --skip-import-processing (the API has neither notion)",
-			"the diff comparison is made on LF files that end in a newline, modulo one final newline (pkg/diff cannot represent CR or a missing last newline)",
+			"the --diff output is applied with the semantics of patch(1): context and removed lines must match the original byte for byte (carriage returns included) and a missing final newline is expressed by the '\\ No newline at end of file' marker; the result must equal the in-place bytes exactly",
 			"only the descriptions of the last matching change are printed by gopatch; the oracle is one-directional (no foreign or misplaced description), as the property states",
 		},
 		RealCode:       []string{"gopatch main()/mainCmd.Run, preview/printComments, patch.Parse/File.Apply, pkg/diff, x/tools/imports, internal/*"},
 		Stubs:          []string{"package os (simulated filesystem, streams, exit)", "path/filepath walk", "io/ioutil"},
-		RequiredProbes: []string{"agree-inplace-vs-print", "agree-diff-applied", "agree-api", "agree-verbose", "agree-refused-file", "description-on-stderr", "multi-file-print", "dry-fault-fired", "dry-kill", "dry-stdout-fail", "noncanonical-matched-file", "large-file", "agree-respelled-duplicate-arg", "agree-api-result-held", "agree-hard-linked-targets", "agree-name-near-name-max"},
+		RequiredProbes: []string{"agree-inplace-vs-print", "agree-diff-applied", "agree-api", "agree-verbose", "agree-refused-file", "description-on-stderr", "multi-file-print", "dry-fault-fired", "dry-kill", "dry-stdout-fail", "noncanonical-matched-file", "large-file", "agree-respelled-duplicate-arg", "agree-api-result-held", "agree-hard-linked-targets", "agree-name-near-name-max", "agree-diff-applied-crlf", "agree-diff-applied-no-final-newline"},
 	}
 }
 
@@ -270,16 +270,28 @@ func c12Agree(env *Env, c *Case) (vs []Violation) {
 				}
 				continue
 			}
-			if strings.Contains(o, "\r") {
-				continue // carriage returns are not representable by pkg/diff's line model
-			}
 			env.Probe("agree-diff-applied")
+			if strings.Contains(o, "\r") {
+				env.Probe("agree-diff-applied-crlf")
+			}
+			if !strings.HasSuffix(o, "\n") {
+				env.Probe("agree-diff-applied-no-final-newline")
+			}
 			got, err := ApplyUnified(o, df)
+			if !strings.HasSuffix(o, "\n") && (err != nil || got != w) {
+				// Is the missing newline at the end of the original the only thing the
+				// diff fails to express? Then it applies to the original plus a newline
+				// and yields the in-place bytes: one specific, separately keyed defect.
+				if g2, e2 := ApplyUnified(o+"\n", df); e2 == nil && g2 == w {
+					vs = append(vs, Violation{Oracle: "diff-vs-inplace", Signature: "C12/diff-vs-inplace/final-newline-not-expressed", Detail: fmt.Sprintf("%s does not end in a newline; in-place mode writes it with one, but the --diff output carries no '\\ No newline at end of file' marker: applied with patch(1) semantics it %s", f.Path, map[bool]string{true: "does not apply (" + fmt.Sprint(err) + ")", false: "gives bytes that differ from the in-place result"}[err != nil])})
+					continue
+				}
+			}
 			if err != nil {
 				add("diff-vs-inplace", "does-not-apply/"+tag, fmt.Sprintf("the diff for %s does not apply to the original: %v", f.Path, err))
 				continue
 			}
-			if strings.TrimSuffix(got, "\n") != strings.TrimSuffix(w, "\n") {
+			if got != w {
 				add("diff-vs-inplace", "differs/"+tag, fmt.Sprintf("applying the --diff output to %s gives %q, in-place mode wrote %q", f.Path, clip(got, 300), clip(w, 300)))
 			}
 		}
